@@ -34,6 +34,7 @@ class IntervalMachine(ValueMachine):
         ValueMachine.__init__(self, lib, cpu=cpu, trusted=trusted)
         self.atom_range = atom_range or (lambda name, off, size: (0, (1 << (8 * size)) - 1))
         self.findings = {}       # loc -> (kind, lo, hi, function)
+        self.precision_loss = []  # places where a known relation between values was dropped: a later finding is no proof
         self.nops = 0
 
     # initial contents of data buffers are intervals given by the layout
@@ -103,6 +104,9 @@ class IntervalMachine(ValueMachine):
             if x.lo >= 0 and y.lo >= 0:
                 return Iv(0, x.hi >> min(y.lo, bits - 1))
             return Iv(0, M - 1)
+        if op in ('and', 'or', 'xor') and x.lo == x.hi and y.lo == y.hi and x.lo >= 0 and y.lo >= 0:
+            r_ = {'and': x.lo & y.lo, 'or': x.lo | y.lo, 'xor': x.lo ^ y.lo}[op]      # two known words: exact
+            return Iv(r_, r_)
         if op == 'and':
             if x.lo >= 0 and y.lo >= 0:
                 for p, q in ((x, y), (y, x)):
@@ -186,6 +190,12 @@ class IntervalMachine(ValueMachine):
             for l in v.lanes:
                 a = iv_of(l)
                 for j in range(k):
+                    if a is not None and a.lo == a.hi and a.lo >= 0:
+                        # a known word (table constant): its parts are known exactly
+                        out.append(Iv((a.lo >> (eb * j)) & ((1 << eb) - 1), (a.lo >> (eb * j)) & ((1 << eb) - 1)))
+                        continue
+                    if a is not None and a.hi >= (1 << eb) and a.lo >= 0:
+                        self.precision_loss.append(getattr(i, 'loc', None))     # the parts of a wide range are not independent
                     if a is not None and a.lo >= 0:
                         out.append(Iv(0, min((1 << eb) - 1, a.hi >> (eb * j))) if (j or a.hi >= (1 << eb)) else a)
                     else:
